@@ -174,3 +174,11 @@ func specDivPow10(v uint64, k int) uint64 {
 //@   ensures [C20.int-suffix] implies(isnil(err), forall(k, 0, len(rem), rem[k] == s[len(s) - len(rem) + k]))
 //@   ensures [C20.int-range] implies(isnil(err), x <= 9223372036854775808)
 //@   loop 1 invariant 0 <= i && i <= len(s) && forall(k, 0, i, s[k] >= 48 && s[k] <= 57) && x <= 9223372036854775808
+
+// quote only builds the text of an error message; the parser's callers look at nothing but err != nil.
+// (That quote itself cannot panic - its s[i+j] reads rest on the width of the rune a range clause yields - is
+// not proved: nosafety.)
+//@ func quote
+//@   props C20
+//@   assigns everything
+//@   nosafety
